@@ -634,8 +634,10 @@ func (it *Iterator) parseItem() bool {
 		return false
 	}
 
-	// Skip banned keys only if it does not have badger internal prefix.
-	if !isInternalKey && it.txn.db.isBanned(key) != nil {
+	// Skip banned keys only if it does not have badger internal prefix. The namespace check works
+	// on the user key, as in Txn.Get and Txn.modify: with the 8 byte timestamp suffix a key that is
+	// too short to carry a namespace would look long enough, and be hidden from iteration only.
+	if !isInternalKey && it.txn.db.isBanned(y.ParseKey(key)) != nil {
 		mi.Next()
 		return false
 	}
